@@ -1,0 +1,54 @@
+//! Verification hooks, only compiled with `--cfg specs_verif`.
+//!
+//! A deterministic-simulation harness installs a [`Hook`] on the threads it
+//! controls. The library calls [`yield_point`] between the atomic steps of its
+//! lock-free code paths and [`buggify`] where a legal-but-rare behaviour (e.g.
+//! a spuriously failing weak compare-exchange) may be injected. On a thread
+//! without an installed hook both are no-ops, so behaviour is unchanged.
+
+use std::{cell::RefCell, rc::Rc};
+
+/// Callbacks a simulation harness provides.
+pub trait Hook {
+    /// Called between atomic steps; the harness may block the calling thread
+    /// here and let another simulated task run.
+    fn yield_point(&self, site: &'static str);
+    /// Returns `true` if the rare-but-legal behaviour at `site` should be
+    /// taken this time.
+    fn buggify(&self, site: &'static str) -> bool;
+}
+
+thread_local! {
+    static HOOK: RefCell<Option<Rc<dyn Hook>>> = const { RefCell::new(None) };
+}
+
+/// Installs `hook` for the calling thread, returning the previous one.
+pub fn install(hook: Rc<dyn Hook>) -> Option<Rc<dyn Hook>> {
+    HOOK.with(|h| h.borrow_mut().replace(hook))
+}
+
+/// Removes the calling thread's hook.
+pub fn uninstall() -> Option<Rc<dyn Hook>> {
+    HOOK.with(|h| h.borrow_mut().take())
+}
+
+fn current() -> Option<Rc<dyn Hook>> {
+    HOOK.try_with(|h| h.borrow().clone()).ok().flatten()
+}
+
+/// A scheduling point. No-op unless the thread installed a hook.
+#[inline]
+pub fn yield_point(site: &'static str) {
+    if let Some(h) = current() {
+        h.yield_point(site);
+    }
+}
+
+/// A cooperative fault point. `false` unless the thread installed a hook.
+#[inline]
+pub fn buggify(site: &'static str) -> bool {
+    match current() {
+        Some(h) => h.buggify(site),
+        None => false,
+    }
+}
